@@ -40,7 +40,7 @@ func init() {
 			"(W) every composite literal of such an iterator sets its CheckConstraints field and the schema field that the nullability validator reads.",
 		NotCovered: "that the evaluated checks / defaults are the right expressions (analyzer), generated-column recomputation, rows written by DDL rewrites, foreign-key cascades and full-text side tables, the backend's own type checks",
 		Technique:  "CFG dominance with value identity of the stored row variable + validator summaries discovered by shape (one call level) + abstract error state",
-		Run:        func(c *Ctx) { runC19(c, c19Repo) },
+		Run:        func(c *Ctx) { runC19(c, c19Repo); runC19G(c, c19gRepo) },
 		Fixture: func(c *Ctx, fx *Prog) {
 			p := c19Params{sqlRel: "testdata/c19/sql", ocIface: "EditOpenerCloser", iterIface: "RowIter", execPkgs: []string{"testdata/c19/exec"}, floors: map[string]int{}}
 			expectFixture(c, fx, "c19: stores that skip validation must be reported", []string{
